@@ -160,6 +160,9 @@ class AbstractFn(Sym):
         return f'AbstractFn<{self.name}>'
 
 
+INTERPRETED: set = set()      # qualified names of the real functions executed symbolically in this process
+
+
 class Closure:
     def __init__(self, node, env: 'Env', globs: dict, name: str, defaults=(), kw_defaults=None, qual=''):
         self.node = node
@@ -577,6 +580,10 @@ class Interp:
         defaults = [from_native(d) for d in (fn.__defaults__ or ())]
         kw_defaults = {k: from_native(v) for k, v in (fn.__kwdefaults__ or {}).items()}
         env = Env(None, fn.__globals__)
+        # module-level names replaced by symbolic stand-ins for this exploration: {(module, name): value}
+        for (gmod, gname), gval in (self.options.get('global_overrides') or {}).items():
+            if gmod == fn.__module__:
+                env.vars[gname] = gval
         if fn.__closure__:
             for name, cell in zip(fn.__code__.co_freevars, fn.__closure__):
                 try:
@@ -603,6 +610,8 @@ class Interp:
             env.vars['__self_cell__'] = bound[first]
         self.call_depth += 1
         self.fn_stack.append(clo)
+        if getattr(clo, 'real', None) is not None and str(clo.qualname).startswith('wn.'):
+            INTERPRETED.add(clo.qualname)       # evidence: real functions whose bodies were symbolically executed
         try:
             if isinstance(clo.node, ast.Lambda):
                 return self.eval(clo.node.body, env)
@@ -879,6 +888,7 @@ class Interp:
             # continue under the assumption that it did not happen in this iteration
             frame = self.ctx.generic[-1]
             frame.active = z_and(frame.active, z_not(z_and(*self.ctx.preds[frame.pred_base:])))
+            frame.abort = z_and(getattr(frame, 'abort', True), z_not(z_and(*self.ctx.preds[frame.pred_base:])))
             raise _Continue()
         raise PyRaise(exc.cls, exc.args, node, cause)
 
@@ -897,6 +907,7 @@ class Interp:
             self.ctx.preds.append(cond) if False else None
             frame = self.ctx.generic[-1]
             frame.active = z_and(frame.active, cond)
+            frame.abort = z_and(getattr(frame, 'abort', True), cond)
             return
         if not self.ctx.branch(cond):
             raise PyRaise(AssertionError, (), node)
@@ -1108,14 +1119,21 @@ class Interp:
             return
         items = self.concrete_items(it)
         if items is not None:
+            frame = self.ctx.generic[-1] if self.ctx.generic else None
             for x in items:
                 self.assign(target, x, env)
+                saved = frame.active if frame is not None else None
                 try:
                     self.exec_block(body, env)
                 except _Break:
                     return
                 except _Continue:
                     continue
+                finally:
+                    if frame is not None and self.ctx.generic and self.ctx.generic[-1] is frame:
+                        # a `continue` taken under a predicated branch skips the rest of THIS iteration of the
+                        # unrolled loop only; deactivations by conditional raises / assertions persist
+                        frame.active = z_and(saved, getattr(frame, 'abort', True))
             self.exec_block(list(orelse), env)
             return
         if self.options.get('record_dicts') and not self.ctx.generic and isinstance(it, MList) and \
@@ -1720,6 +1738,10 @@ class Interp:
         cur = nodes
         # walk / create Loop nodes for frames that have binders; guards of binder-less frames are conjoined
         pending_guard = []
+        # the frame the container was created in: a `continue` / conditional raise taken since then (frame.active)
+        # limits the iterations in which this append happens
+        if 0 < d0 <= len(ctx.generic) and ctx.generic[d0 - 1].active is not True:
+            pending_guard.append(ctx.generic[d0 - 1].active)
         for f in frames:
             if f.binders:
                 key = tuple(id(b.var) for b in f.binders)
@@ -1777,7 +1799,7 @@ class Interp:
     def set_add(self, st, elem):
         if not isinstance(st, MSet):
             raise Unsupported(f'add to {type(st).__name__}')
-        if len(self.ctx.generic) <= st.depth and len(self.ctx.preds) <= st.pdepth:
+        if len(self.ctx.generic) <= st.depth and len(self.ctx.preds) <= st.pdepth and self._frame_active_true(st):
             if not is_sym(elem) and not contains_sym(elem):
                 if elem not in [x for x in st.items if not is_sym(x) and not contains_sym(x)]:
                     st.items.append(elem)
@@ -1786,6 +1808,11 @@ class Interp:
             return
         self._append_node(st.nodes, elem, st)
 
+    def _frame_active_true(self, owner) -> bool:
+        d0 = getattr(owner, 'depth', 0)
+        g = self.ctx.generic
+        return not (0 < d0 <= len(g)) or g[d0 - 1].active is True or z3.is_true(z3.simplify(z_bool(g[d0 - 1].active)))
+
     def set_update(self, st, src):
         items = self.concrete_items(src)
         if items is not None:
@@ -1793,7 +1820,7 @@ class Interp:
                 self.set_add(st, x)
             return
         seq = self.to_seq(src)
-        if len(self.ctx.generic) <= st.depth and len(self.ctx.preds) <= st.pdepth:
+        if len(self.ctx.generic) <= st.depth and len(self.ctx.preds) <= st.pdepth and self._frame_active_true(st):
             st.nodes.extend(seq.nodes)
         else:
             self._append_nested(st.nodes, seq.nodes, st)
@@ -1897,8 +1924,9 @@ class Interp:
             ctx.may_raise.append((exc_type, ctx.assumptions() + [z3.Not(cond)], node, what,
                                   list(ctx.all_binders())))
             frame = ctx.generic[-1]
-            frame.active = z_and(frame.active, z3.Or(z_not(z_and(*ctx.preds[frame.pred_base:])), cond)
-                                 if ctx.preds[frame.pred_base:] else cond)
+            still = z3.Or(z_not(z_and(*ctx.preds[frame.pred_base:])), cond) if ctx.preds[frame.pred_base:] else cond
+            frame.active = z_and(frame.active, still)
+            frame.abort = z_and(getattr(frame, 'abort', True), still)
             return
         if not ctx.branch(cond, raising=True):
             raise PyRaise(exc_type, (what,), node)
